@@ -391,6 +391,14 @@ LenVal(a) == IF IdxVal(a.v[1]) < 0 THEN 0 ELSE IdxVal(a.v[1])
 ARavel(a) == [sh |-> Append(SubSeq(a.sh, 1, Len(a.sh) - 2), a.sh[Len(a.sh) - 1] * a.sh[Len(a.sh)]), v |-> a.v]
 AUnravel(a, s1, s2) == [sh |-> SFront(a.sh) \o <<s1, s2>>, v |-> a.v]
 
+\* ---- Monomial(values (n), args, indices, powers): sparse product without summation (helper of evaluable.factor):
+\* result[k] = values[k] * prod_a args[a][indices[a][1][k], ..., indices[a][rank_a][k]].
+\* Node encoding: d = <<values, arg_1, its rank_1 index nodes, arg_2, its index nodes, ...>>, p = powers (multiplicities, which
+\* matter to the derivative bookkeeping only).  MonoSplit lists <<arg position, <<index positions>>>> per factor.
+RECURSIVE MonoSplit(_, _, _)
+MonoSplit(N, d, pos) == IF pos > Len(d) THEN <<>>
+                        ELSE LET r == Len(N[d[pos]].sh) IN << <<d[pos], SubSeq(d, pos + 1, pos + r)>> >> \o MonoSplit(N, d, pos + r + 1)
+
 IsBoolNode(n) == n.dt = "b"
 \* does node k depend on an argument (i.e. can it vary with the point of differentiation)?
 RECURSIVE DepArg(_, _)
@@ -416,6 +424,15 @@ Ev(N, k, env, lenv) ==
        [] op = "RangeN" -> ARange(LenVal(A(1)))                           \* Range(length node)
        [] op = "InsertAxisN" -> AInsertAxis(A(1), LenVal(A(2)))           \* InsertAxis(func, length node)
        [] op = "LoopIndex" -> AScalar(DInt(lenv[n.p[1]]))
+       \* loop whose number of iterations is the value of a (closed, possibly argument dependent) scalar integer node:
+       \* LoopIndexN: d = <<length node>>, p = <<loop id>>;  LoopSumN: d = <<body, length node>>, p = <<loop id>>
+       [] op = "LoopIndexN" -> AScalar(DInt(lenv[n.p[1]]))
+       [] op = "LoopSumN" ->
+            LET len == LenVal(A(2))
+                parts == [i \in 1..len |-> Ev(N, n.d[1], env, [lenv EXCEPT ![n.p[1]] = i - 1])]
+            IN IF DIsBad(A(2).v[1]) THEN AFull(n.sh, IF cx THEN ZBad ELSE DBad)
+               ELSE [sh |-> n.sh, v |-> [e \in 1..Prod(n.sh) |-> IF cx THEN FoldSeq(ZAdd, ZZero, [i \in 1..len |-> parts[i].v[e]], 1)
+                                                                  ELSE FoldSeq(DAdd, DZero, [i \in 1..len |-> parts[i].v[e]], 1)]]
        [] op = "InsertAxis" -> AInsertAxis(A(1), n.p[1])
        [] op = "Transpose" -> ATranspose(A(1), n.p)
        [] op = "Sum" -> IF N[n.d[1]].dt = "b" THEN AReduceLast(A(1), DOr, DZero)
@@ -469,6 +486,13 @@ Ev(N, k, env, lenv) ==
        [] op = "SizesToOffsets" -> ASizesToOffsets(A(1))
        [] op = "CompressIndices" -> ACompressIndices(A(1), LenVal(A(2)))
        [] op = "Find" -> AFind(A(1))
+       [] op = "Monomial" ->
+            LET terms == MonoSplit(N, n.d, 2)
+                vals == A(1)
+                argv == [t \in 1..Len(terms) |-> Ev(N, terms[t][1], env, lenv)]
+                indv == [t \in 1..Len(terms) |-> [j \in 1..Len(terms[t][2]) |-> Ev(N, terms[t][2][j], env, lenv)]]
+            IN MkArr(vals.sh, LAMBDA idx :
+                  FoldSeq(DMul, At(vals, idx), [t \in 1..Len(terms) |-> At(argv[t], [j \in 1..Len(indv[t]) |-> IdxVal(At(indv[t][j], idx))])], 1))
        [] op = "Einsum" ->
             LET dec == EsDecode(n.p, 1)
                 args == [i \in 1..Len(n.d) |-> A(i)]
